@@ -546,6 +546,45 @@ fn schedule(p: &Value) -> Value {
     }
 }
 
+/// model validation (C03): per-draw tree statistics of a real DiagNutsSettings chain with a fixed step size
+fn tree_stats(p: &Value) -> Value {
+    let maxdepth = p["maxdepth"].as_u64().unwrap_or(4);
+    let mindepth = p["mindepth"].as_u64().unwrap_or(0);
+    let step = p["step"].as_f64().unwrap_or(0.7);
+    let nd = p["num_draws"].as_u64().unwrap_or(150);
+    let r = quiet(|| {
+        let mut settings = DiagNutsSettings::default();
+        settings.num_tune = 0;
+        settings.num_draws = nd;
+        settings.maxdepth = maxdepth;
+        settings.mindepth = mindepth;
+        settings.adapt_options.step_size_settings.adapt_options.method = nuts_rs::StepSizeAdaptMethod::Fixed(step);
+        settings.adapt_options.step_size_settings.jitter = None;
+        let dim = p["dim"].as_u64().unwrap_or(3) as usize;
+        let math = CpuMath::new(Normal { dim });
+        let mut rng = rand::rngs::StdRng::seed_from_u64(p["seed"].as_u64().unwrap_or(11));
+        let mut chain = settings.new_chain(0, math, &mut rng);
+        chain.set_position(&vec![2.5f64; dim]).unwrap();
+        let (mut depth, mut steps, mut idx, mut flag, mut div, mut moved) = (vec![], vec![], vec![], vec![], vec![], vec![]);
+        let mut prev = vec![2.5f64; dim];
+        for _ in 0..nd {
+            let (pos, _e, stats, prog) = chain.expanded_draw().unwrap();
+            depth.push(stats.depth);
+            steps.push(prog.num_steps);
+            idx.push(stats.point.index_in_trajectory);
+            flag.push(stats.maxdepth_reached);
+            div.push(prog.diverging);
+            moved.push(pos.iter().zip(prev.iter()).any(|(a, b)| a != b));
+            prev = pos.to_vec();
+        }
+        (depth, steps, idx, flag, div, moved)
+    });
+    match r {
+        Ok((depth, steps, idx, flag, div, moved)) => json!({"confirmed": true, "depth": depth, "num_steps": steps, "index_in_trajectory": idx, "maxdepth_reached": flag, "diverging": div, "moved": moved}),
+        Err(msg) => json!({"confirmed": false, "panicked": true, "message": msg}),
+    }
+}
+
 fn main() {
     let args: Vec<String> = std::env::args().collect();
     let fam = args.get(1).map(|s| s.as_str()).unwrap_or("");
@@ -558,6 +597,7 @@ fn main() {
         "chain_failure" => chain_failure(&p),
         "flow_last_step" => flow_last_step(&p),
         "schedule" => schedule(&p),
+        "tree_stats" => tree_stats(&p),
         _ => json!({"error": "unknown family"}),
     };
     println!("{}", out);
